@@ -491,8 +491,10 @@ func enginePlan(ctx *core.Ctx) []Scenario {
 			}
 		}
 		for i, st := range strats {
+			// the worker-pool size of the rounds (tss.Parameters.SetConcurrency) varies with the schedule: default, 1, 2
+			conc := []int{0, 1, 2}[i%3]
 			scs = append(scs, Scenario{Proto: sz.proto, N: sz.n, T: sz.t, KeyN: sz.keyN, NewN: sz.newN, NewT: sz.newT,
-				NoProofs: sz.noProofs, Strategy: st, Seed: ctx.Seed*7919 + int64(i) + 1})
+				NoProofs: sz.noProofs, Strategy: st, Seed: ctx.Seed*7919 + int64(i) + 1, Concurrency: conc})
 		}
 	}
 	return scs
